@@ -65,6 +65,7 @@ type Contract struct {
 	Loops    map[int]*LoopSpec
 	Trusted  bool
 	Inlines  []string // callees (by key) whose bodies are executed here instead of using their contracts
+	MayExit  bool // every path may end in a call that does not return (os.Exit): no reachable return is demanded
 	NoPrune  bool // explore every syntactic path without asking the solver whether it is feasible
 	RecBound *Clause // must hold for the arguments of every recursive call (bounds the recursion depth)
 	Enumerate []string
@@ -174,6 +175,8 @@ func parseContractFile(P *Program, pkg *packages.Package, f *ast.File, name stri
 				cur.Inlines = append(cur.Inlines, parseNameList(rest)...)
 			case "noprune":
 				cur.NoPrune = true
+			case "mayexit":
+				cur.MayExit = true
 			case "pure":
 				cur.Pure = true
 			case "trusted":
